@@ -22,7 +22,8 @@ RULE = ("complete enumeration: {asa,ios,nxos} x version strings {'', '15', '15.2
         "distinct non-trivial = distinct (table, name) / (platform, protocol number) / (table, number) facts judged"
         " Round 4: range_ports() enumerated over every named number x platform x side; nested switches/copies in a grouped configuration-level ACL per table."
         " Round 5: range_protocols() with a template whose sequence equals its protocol number, every protocol, both switch settings."
-        " Rounds 6-7: returned tables / lists edited by the caller, then asked again.")
+        " Rounds 6-7: returned tables / lists edited by the caller, then asked again."
+        " Round 9: name lists in any order on the destination side; version strings of one major release select one table.")
 ASSUMPTIONS = ["which names a platform/version knows is taken from the library's tables; the number of each name is judged "
                "against oracle/names.py; a table name unknown to oracle/names.py is reported as a violation (the oracle "
                "must then be extended by hand)"]
